@@ -520,6 +520,7 @@ class Solver:
                 logging.debug(f"{state.idx} {state.reach_probability}")
                 state.reach_probability = reach_probability_next
             diff = max_diff
+            _verif_emit("ReachSweep", sweep=i, state_list=self.state_list)
 
             logging.debug("-"*80)
         logging.debug(f"iteration {i}")
